@@ -59,13 +59,16 @@ package keeper
 //@   property C05, C06
 //@   returns rules
 //@   requires rulesWF
+//@   uses ridxRange(get(pools, poolId).Rules, "")
+//@   uses ridxHit(get(pools, poolId).Rules, 0)
 //@   invariant #1 pos:   0 <= it_idx && it_idx <= it_n && len(rules) == it_idx
 //@   invariant #1 elems: forall j:Int :: 0 <= j && j < it_idx ==> rules[j] == get(ruleF, poolId, it_seq[j].k1) && rules[j].Reward == it_seq[j].k1
 //@   witness rule_pos: forall d:Str :: uf("rule_pos", ruleF, poolId, d) == itpos(poolId, d)
 //@   ensures stored:   forall j:Int :: 0 <= j && j < len(rules) ==> has(ruleF, poolId, rules[j].Reward) && rules[j] == get(ruleF, poolId, rules[j].Reward)
-//@   ensures distinct: forall a:Int :: forall b:Int :: 0 <= a && a < b && b < len(rules) ==> rules[a].Reward != rules[b].Reward
-//@   ensures complete: forall d:Str :: has(ruleF, poolId, d) ==> 0 <= uf("rule_pos", ruleF, poolId, d) && uf("rule_pos", ruleF, poolId, d) < len(rules)
+//@   ensures distinct: distinctRewards(rules)
+//@   ensures complete: forall d:Str {has(ruleF, poolId, d)} :: has(ruleF, poolId, d) ==> 0 <= uf("rule_pos", ruleF, poolId, d) && uf("rule_pos", ruleF, poolId, d) < len(rules)
 //@                                       && rules[uf("rule_pos", ruleF, poolId, d)].Reward == d
+//@   ensures inverse:  forall j:Int :: 0 <= j && j < len(rules) ==> uf("rule_pos", ruleF, poolId, rules[j].Reward) == j
 //@ end
 
 // ---------------------------------------------------------------------------------------------
@@ -88,11 +91,13 @@ package keeper
 //@   requires height >= 0 && pool.LastHeightDistrRewards >= 0 && pool.TotalLptLocked.Amount >= 0 && pool.TotalLptLocked.Amount + amount >= 0
 //@   requires ufb("denom_valid", pool.TotalLptLocked.Denom)
 //@   modifies ruleF, pools, bal
+//@   uses ridxRange(pool.Rules, "")
+//@   uses ridxHit(pool.Rules, 0)
 //@   invariant #1 idx:   rangeindex >= 0 - 1 && rangeindex < len(rules) && releasing(pool)
 //@   invariant #1 shape: (forall j:Int :: 0 <= j && j < len(rules) ==> old(has(ruleF, pool.Id, rules[j].Reward)) && has(ruleF, pool.Id, rules[j].Reward))
-//@                    && (forall a:Int :: forall b:Int :: 0 <= a && a < b && b < len(rules) ==> rules[a].Reward != rules[b].Reward)
-//@                    && (forall d:Str :: old(has(ruleF, pool.Id, d)) ==> 0 <= uf("rule_pos", old(ruleF), pool.Id, d) && uf("rule_pos", old(ruleF), pool.Id, d) < len(rules)
+//@                    && (forall d:Str {old(has(ruleF, pool.Id, d))} :: old(has(ruleF, pool.Id, d)) ==> 0 <= uf("rule_pos", old(ruleF), pool.Id, d) && uf("rule_pos", old(ruleF), pool.Id, d) < len(rules)
 //@                                         && rules[uf("rule_pos", old(ruleF), pool.Id, d)].Reward == d)
+//@                    && (forall j:Int :: 0 <= j && j < len(rules) ==> uf("rule_pos", old(ruleF), pool.Id, rules[j].Reward) == j)
 //@   invariant #1 done_rule:  forall j:Int :: 0 <= j && j <= rangeindex ==> rules[j] == updRule(old(RULE(pool.Id, rules[j].Reward)), pool)
 //@   invariant #1 done_store: forall j:Int :: 0 <= j && j <= rangeindex ==> RULE(pool.Id, rules[j].Reward) == rules[j]
 //@   invariant #1 done_total: forall j:Int :: 0 <= j && j <= rangeindex ==> amt(rewardTotal, rules[j].Reward) == relOf(rules[j], pool)
@@ -106,15 +111,97 @@ package keeper
 //@                       && RULE(pool.Id, np.Rules[j].Reward) == np.Rules[j]
 //@                       && np.Rules[j] == ite(releasing(pool), updRule(old(RULE(pool.Id, np.Rules[j].Reward)), pool), old(RULE(pool.Id, np.Rules[j].Reward)))
 //@                       && (releasing(pool) ==> old(RULE(pool.Id, np.Rules[j].Reward)).RemainingReward >= relOf(old(RULE(pool.Id, np.Rules[j].Reward)), pool)))
-//@   ensures rules_distinct: err == nil ==> (forall a:Int :: forall b:Int :: 0 <= a && a < b && b < len(np.Rules) ==> np.Rules[a].Reward != np.Rules[b].Reward)
-//@   ensures rules_complete: err == nil ==> (forall d:Str :: old(has(ruleF, pool.Id, d)) ==> 0 <= uf("rule_pos", old(ruleF), pool.Id, d) && uf("rule_pos", old(ruleF), pool.Id, d) < len(np.Rules)
+//@   ensures rules_distinct: err == nil ==> distinctRewards(np.Rules)
+//@   ensures rules_complete: err == nil ==> (forall d:Str {old(has(ruleF, pool.Id, d))} :: old(has(ruleF, pool.Id, d)) ==> 0 <= uf("rule_pos", old(ruleF), pool.Id, d) && uf("rule_pos", old(ruleF), pool.Id, d) < len(np.Rules)
 //@                       && np.Rules[uf("rule_pos", old(ruleF), pool.Id, d)].Reward == d)
+//@   ensures rules_inverse: err == nil ==> (forall j:Int :: 0 <= j && j < len(np.Rules) ==> uf("rule_pos", old(ruleF), pool.Id, np.Rules[j].Reward) == j)
 //@   ensures rule_frame: (forall p:Str :: forall d:Str :: p != pool.Id ==> has(ruleF, p, d) == old(has(ruleF, p, d)) && RULE(p, d) == old(RULE(p, d)))
 //@                       && (forall d:Str :: !old(has(ruleF, pool.Id, d)) ==> !has(ruleF, pool.Id, d))
 //@   ensures collected: err == nil ==> (forall j:Int :: 0 <= j && j < len(np.Rules) ==> amt(collected, np.Rules[j].Reward) == ite(releasing(pool), relOf(np.Rules[j], pool), 0))
 //@                       && (forall d:Str :: !old(has(ruleF, pool.Id, d)) ==> amt(collected, d) == 0)
-//@   ensures pool_record: err == nil ==> np.TotalLptLocked == coin(pool.TotalLptLocked.Denom, pool.TotalLptLocked.Amount + amount) && np.LastHeightDistrRewards == height
-//@                       && np.Id == pool.Id && np.Creator == pool.Creator && np.Editable == pool.Editable
-//@                       && np.EndHeight == ite(isDestroy, height, pool.EndHeight) && np.StartHeight == ite(isDestroy && pool.StartHeight > height, height, pool.StartHeight)
+// the same facts per denomination (what callers use); derived from the list-indexed clauses above
+//@   ensures by_denom: err == nil ==> (forall d:Str :: has(ruleF, pool.Id, d) == old(has(ruleF, pool.Id, d))
+//@                       && (has(ruleF, pool.Id, d) ==> RULE(pool.Id, d) == ite(releasing(pool), updRule(old(RULE(pool.Id, d)), pool), old(RULE(pool.Id, d)))
+//@                              && (releasing(pool) ==> old(RULE(pool.Id, d)).RemainingReward >= relOf(old(RULE(pool.Id, d)), pool)))
+//@                       && amt(collected, d) == ite(releasing(pool) && old(has(ruleF, pool.Id, d)), relOf(old(RULE(pool.Id, d)), pool), 0))
+//@   by by_denom: ens:rules_list, ens:rules_complete, ens:rule_frame, ens:collected
+//@   ensures rules_ok_j: err == nil ==> (forall j:Int :: 0 <= j && j < len(np.Rules) ==> ruleOK(np.Rules[j]))
+//@   by rules_ok_j: ens:rules_list, req
+//@   ensures rules_ok: err == nil ==> (forall d:Str :: has(ruleF, pool.Id, d) ==> ruleOK(RULE(pool.Id, d)))
+//@   by rules_ok: ens:by_denom, req
+//@   ensures rps_mono: err == nil ==> (forall d:Str :: has(ruleF, pool.Id, d) ==> raw(RULE(pool.Id, d).RewardPerShare) >= raw(old(RULE(pool.Id, d)).RewardPerShare))
+//@   by rps_mono: ens:by_denom, req
+//@   ensures share_mono: err == nil ==> (forall d:Str :: forall L:Int :: has(ruleF, pool.Id, d) && L >= 0 ==>
+//@                       (raw(RULE(pool.Id, d).RewardPerShare) * L) div DEC_ONE >= (raw(old(RULE(pool.Id, d)).RewardPerShare) * L) div DEC_ONE)
+//@   by share_mono: ens:rps_mono
+//@   ensures share_mono_j: err == nil ==> (forall j:Int :: forall L:Int :: 0 <= j && j < len(np.Rules) && L >= 0 ==>
+//@                       (raw(np.Rules[j].RewardPerShare) * L) div DEC_ONE >= (raw(old(RULE(pool.Id, np.Rules[j].Reward)).RewardPerShare) * L) div DEC_ONE)
+//@   by share_mono_j: ens:rules_list, req
+//@   ensures ledger:   err == nil ==> (forall d:Str :: bal(MOD, d) == old(bal(MOD, d)) - amt(collected, d) && bal(COLLECTOR, d) == old(bal(COLLECTOR, d)) + amt(collected, d))
+//@   ensures ledger_frame: forall a:Bytes :: forall d:Str :: a != MOD && a != COLLECTOR ==> bal(a, d) == old(bal(a, d))
+//@   ensures pool_record: err == nil ==> np == with(with(with(with(with(pool, "TotalLptLocked", coin(pool.TotalLptLocked.Denom, pool.TotalLptLocked.Amount + amount)),
+//@                           "LastHeightDistrRewards", height), "EndHeight", ite(isDestroy, height, pool.EndHeight)),
+//@                           "StartHeight", ite(isDestroy && pool.StartHeight > height, height, pool.StartHeight)), "Rules", np.Rules)
 //@                       && pools == set(old(pools), pool.Id, with(np, "Rules", zero(np.Rules)))
+//@ end
+
+// ---------------------------------------------------------------------------------------------
+// Farmers: stake, unstake, harvest (C05, C06)
+
+//@ define FARMER(a, p) = get(farmers, a, p)
+//@ define POOL(p) = get(pools, p)
+// pending reward of a position (locked L, debt D) under rule r, and the debt after the position changes to L2
+//@ define pend(r, L, D) = ite(L > 0, (raw(r.RewardPerShare) * L) div DEC_ONE - D, 0)
+//@ define debtOf(r, L2) = (raw(r.RewardPerShare) * L2) div DEC_ONE
+// a stored position never owes more debt than its share (the accumulator only grows), and owes nothing in other denominations
+//@ define debtOK(f, p) = f.Locked > 0 && (forall d:Str :: amt(f.RewardDebt, d) >= 0
+//@        && (has(ruleF, p, d) ==> amt(f.RewardDebt, d) <= debtOf(RULE(p, d), f.Locked)) && (!has(ruleF, p, d) ==> amt(f.RewardDebt, d) == 0))
+// pool record: sane heights and amounts
+//@ define poolOK(pl) = pl.LastHeightDistrRewards >= 0 && pl.LastHeightDistrRewards <= height && pl.TotalLptLocked.Amount >= 0 && ufb("denom_valid", pl.TotalLptLocked.Denom)
+//@        && pl.StartHeight >= 0 && pl.EndHeight >= pl.StartHeight
+
+// Pays what is pending, capped by what the collector holds; cannot fail for an ordinary recipient.
+//@ func Keeper.payRewards
+//@   property C05, C06
+//@   returns paid, err
+//@   requires farmer != COLLECTOR && !blocked[farmer]
+//@   requires forall d:Str :: amt(rewards, d) >= 0
+//@   modifies bal
+//@   ensures never_fails: err == nil
+//@   ensures capped:  forall d:Str :: amt(paid, d) == min(amt(rewards, d), max(0, old(bal(COLLECTOR, d))))
+//@   ensures ledger:  forall d:Str :: bal(COLLECTOR, d) == old(bal(COLLECTOR, d)) - amt(paid, d) && bal(farmer, d) == old(bal(farmer, d)) + amt(paid, d)
+//@   ensures frame:   forall a:Bytes :: forall d:Str :: a != COLLECTOR && a != farmer ==> bal(a, d) == old(bal(a, d))
+//@ end
+
+// what a farmer position looks like in the store (the only writers are Stake, Unstake and Harvest)
+//@ define posWF(a, p) = has(pools, p) && FARMER(a, p).PoolId == p && FARMER(a, p).Address == a && debtOK(FARMER(a, p), p)
+// rewards released to the collector by this operation, per denomination
+//@ define relD(pl, d) = ite(releasing(pl) && old(has(ruleF, pl.Id, d)), relOf(old(RULE(pl.Id, d)), pl), 0)
+
+// Harvest: release the pool's rewards up to now, pay the farmer's pending reward (C06), leave the stake alone (C05).
+//@ func Keeper.Harvest
+//@   property C05, C06
+//@   returns reward, err
+//@   requires rulesWF && rulesOK
+//@   requires sender != COLLECTOR && sender != MOD && !blocked[sender] && height >= 0
+//@   requires has(pools, poolId) ==> poolOK(POOL(poolId)) && POOL(poolId).Id == poolId
+//@   requires has(farmers, bech(sender), poolId) ==> posWF(bech(sender), poolId)
+//@   let pl = POOL(poolId)
+//@   let fi = FARMER(bech(sender), poolId)
+//@   modifies ruleF, pools, bal, farmers
+//@   ensures guards:   err == nil ==> old(has(pools, poolId)) && old(has(farmers, bech(sender), poolId)) && height <= pl.EndHeight
+//@   ensures rules:    err == nil ==> (forall d:Str :: has(ruleF, poolId, d) == old(has(ruleF, poolId, d))
+//@                       && (has(ruleF, poolId, d) ==> RULE(poolId, d) == ite(releasing(pl), updRule(old(RULE(poolId, d)), pl), old(RULE(poolId, d)))))
+//@   ensures rule_frame: forall p:Str :: forall d:Str :: p != poolId ==> has(ruleF, p, d) == old(has(ruleF, p, d)) && RULE(p, d) == old(RULE(p, d))
+//@   ensures paid:     err == nil ==> (forall d:Str :: amt(reward, d) == ite(has(ruleF, poolId, d),
+//@                       min(pend(RULE(poolId, d), fi.Locked, amt(fi.RewardDebt, d)), max(0, old(bal(COLLECTOR, d)) + relD(pl, d))), 0))
+//@   ensures position: err == nil ==> has(farmers, bech(sender), poolId) && FARMER(bech(sender), poolId).Locked == fi.Locked
+//@                       && FARMER(bech(sender), poolId).PoolId == poolId && FARMER(bech(sender), poolId).Address == bech(sender)
+//@                       && (forall d:Str :: amt(FARMER(bech(sender), poolId).RewardDebt, d) == ite(has(ruleF, poolId, d), debtOf(RULE(poolId, d), fi.Locked), 0))
+//@   ensures farmers_frame: forall a:Str :: forall p:Str :: (a != bech(sender) || p != poolId) ==> has(farmers, a, p) == old(has(farmers, a, p)) && FARMER(a, p) == old(FARMER(a, p))
+//@   ensures ledger:   err == nil ==> (forall d:Str :: bal(MOD, d) == old(bal(MOD, d)) - relD(pl, d)
+//@                       && bal(COLLECTOR, d) == old(bal(COLLECTOR, d)) + relD(pl, d) - amt(reward, d)
+//@                       && bal(sender, d) == old(bal(sender, d)) + amt(reward, d))
+//@   ensures ledger_frame: forall a:Bytes :: forall d:Str :: a != MOD && a != COLLECTOR && a != sender ==> bal(a, d) == old(bal(a, d))
+//@   ensures pool_record: err == nil ==> pools == set(old(pools), poolId, with(with(pl, "LastHeightDistrRewards", height), "Rules", zero(pl.Rules)))
 //@ end
